@@ -50,6 +50,11 @@ def gen(rng, tier):
         threads[0] = main
         main.append(submit_op("A", 7000, dict(id=7000, kind=rng.choice(["child", "nested_leave"]), dur=0, child_dur=D, hold=0.01, sub_dur=D), []))
         main.append({"op": "wait_all"})
+    if rng.random() < 0.2:
+        # the pool is already shutting down gracefully (and not waited for) when the forced shutdown arrives
+        main.append({"op": "shutdown", "ex": "A", "wait": False})
+        if rng.random() < 0.5:
+            main.append({"op": "sleep", "d": rng.choice([0.0, 0.001, 0.05])})
     if via == "shutdown":
         main.append({"op": "shutdown", "ex": "A", "wait": True, "kill": True})
     else:
@@ -60,7 +65,8 @@ def gen(rng, tier):
         main.append(submit_op("B", 9500, dict(id=9500, kind="work", dur=0), []))
         main.append({"op": "result", "f": 9500})
         main.append({"op": "shutdown", "ex": "B", "wait": True, "kill": True})
-    return dict(family="kill", knobs=gen_knobs(rng, tier), model=gen_model(rng), threads=threads, faults=[], D=D, via=via)
+    return dict(family="kill", knobs=gen_knobs(rng, tier), model=gen_model(rng), threads=threads, faults=[], D=D, via=via,
+                watch_flag_looks=True)
 
 
 def _ancestors(k, p):
@@ -81,6 +87,22 @@ class C06(Prop):
 
     def gen(self, rng, tier):
         return gen(rng, tier)
+
+    def program(self, spec):
+        from .. import program as prog
+
+        def monitor(run):
+            if "kill_flag_step" not in run.obs.data:
+                for info in run.obs.executors.values():
+                    if info["flags"].kill_workers:
+                        from .. import runtime as rt
+                        run.obs.data["kill_flag_step"] = rt.RT.sched.steps
+                        break
+
+        def program(run):
+            run.monitors.append(monitor)
+            prog.Interp(run, spec).main()
+        return program
 
     def check(self, res):
         pid = self.id
@@ -106,8 +128,15 @@ class C06(Prop):
         racing = [n for n in res.obs.notes if n[0] == "mpinfo" and n[3].startswith("Shutting down worker after timeout")
                   and res.kernel.procs[n[1]].orig_ppid == 100 and n[2] <= ret["now"] + 1e-9
                   and (res.kernel.procs[n[1]].death is None or res.kernel.procs[n[1]].death >= call["now"] - 1e-9)]
+        # the manager thread had already entered join_executor_internals() for an earlier graceful shutdown
+        # (its last look at the kill_workers flag - before the first "found N processes to stop" - saw it unset)
+        found = [n[4] for n in res.obs.notes if n[0] == "mpdebug" and n[1] == 100 and n[3].startswith("found ")]
+        looks = [n for n in res.obs.notes if n[0] == "mgr-flag-look" and found and n[4] < found[0]]
+        kill_set = res.obs.data.get("kill_flag_step")
+        joining = bool(found and looks and looks[-1][3] is False and kill_set is not None and looks[-1][4] < kill_set
+                       and found[0] <= ret["step"])
         if dt >= BOUND:
-            why = "/worker-left-on-timeout-first" if racing else ""
+            why = "/worker-left-on-timeout-first" if racing else ("/graceful-join-already-started" if joining else "")
             out.append(V(pid, "C06/not-prompt%s" % why, "forced shutdown took %.1f virtual seconds (tasks last %g s)%s" % (
                 dt, res.spec["D"], "; workers %r had announced an idle time-out exit" % [n[1] for n in racing] if racing else "")))
         if ret["phase"] == "exc":
@@ -130,6 +159,8 @@ class C06(Prop):
                     if when == "born-before-the-call" and racing and any(
                             q.pid in [n[1] for n in racing] for q in [p] + [res.kernel.procs[x] for x in _ancestors(res.kernel, p)]):
                         when = "worker-left-on-timeout-first"
+                    elif when == "born-before-the-call" and joining:
+                        when = "graceful-join-already-started"
                     out.append(V(pid, "C06/process-survives-forced-shutdown/%s/%s" % (p.role, when),
                                  "pid %d (%s, child of %d, born %.4f) alive when the call (%.4f..%.4f) returned (death=%r)" % (
                                      p.pid, p.role, p.orig_ppid, p.birth, call["now"], ret["now"], p.death)))
